@@ -337,6 +337,8 @@ pub struct Vfs {
     initialized: AtomicBool,
     lock: Mutex<()>,
     remove_pseudo_root: bool,
+    // Global mapping given at construction; the value in force lives in `opts`.
+    #[allow(dead_code)]
     id_mapping: Option<(u32, u32, u32)>,
 }
 
@@ -602,7 +604,17 @@ impl Vfs {
         {
             return Some(m);
         }
-        self.id_mapping
+        self.global_id_mapping()
+    }
+
+    /// The global id mapping currently in force. It is read from `opts`, which is what
+    /// `restore_from_bytes` replaces; the `id_mapping` field only reflects the options the
+    /// object was constructed with.
+    fn global_id_mapping(&self) -> Option<(u32, u32, u32)> {
+        match self.opts.load().id_mapping {
+            (_, _, 0) => None,
+            mapping => Some(mapping),
+        }
     }
 
     fn convert_entry(&self, fs_idx: VfsIndex, inode: u64, entry: &mut Entry) -> Result<Entry> {
